@@ -1243,6 +1243,266 @@ fn mode_random(path: &str) {
     out.flush().unwrap();
 }
 
+// ------------------------------------------------------------------------------------------
+// hook-free part: the real kernel futex
+// ------------------------------------------------------------------------------------------
+fn thread_state(tid: i32) -> Option<(char, i64)> {
+    // (scheduler state, system call number the task is blocked in or -1)
+    let stat = std::fs::read_to_string(format!("/proc/self/task/{tid}/stat")).ok()?;
+    let st = stat.rsplit(')').next()?.trim().chars().next()?;
+    let sc = std::fs::read_to_string(format!("/proc/self/task/{tid}/syscall"))
+        .ok()
+        .and_then(|x| x.split_whitespace().next().and_then(|n| n.parse::<i64>().ok()))
+        .unwrap_or(-1);
+    Some((st, sc))
+}
+fn wait_until_parked(tid: &std::sync::atomic::AtomicI32) -> bool {
+    // the waiter publishes its tid, then calls FUTEX_WAIT; parked = sleeping inside futex(2) (nr 202)
+    for _ in 0..20000 {
+        let t = tid.load(Ordering::SeqCst);
+        if t != 0 {
+            if let Some(('S', 202)) = thread_state(t) {
+                return true;
+            }
+        }
+        std::thread::sleep(std::time::Duration::from_micros(200));
+    }
+    false
+}
+fn errno_of(r: &Result<(), rusl::Error>) -> i64 {
+    match r {
+        Ok(()) => 0,
+        Err(e) => -i64::from(e.code.map_or(9999, rusl::error::Errno::raw)),
+    }
+}
+
+/// FutexSys scenarios: rusl::futex::{futex_wait, futex_wake} against the kernel, reported as
+/// machine-level facts (word, expected value, number parked, result) for the judge.
+fn futex_scenarios(out: &mut impl Write) {
+    use rusl::futex::{futex_wait, futex_wake};
+    use rusl::platform::{FutexFlags, TimeSpec};
+    use std::sync::atomic::AtomicI32;
+    // 1. value mismatch: EAGAIN at once
+    let w = CoreAtomicU32::new(5);
+    let r = futex_wait(&w, 6, FutexFlags::PRIVATE, None);
+    writeln!(out, "{{\"ev\":\"fwait\",\"sc\":\"mismatch\",\"word\":5,\"exp\":6,\"timeout\":false,\"res\":{}}}", errno_of(&r)).unwrap();
+    // 2. wake with nobody parked
+    let r = futex_wake(&w, 1).map_or(-1, |n| n as i64);
+    writeln!(out, "{{\"ev\":\"fwake\",\"sc\":\"nobody\",\"n\":1,\"parked\":0,\"res\":{r}}}").unwrap();
+    // 3. timeout on a matching value
+    let r = futex_wait(&w, 5, FutexFlags::PRIVATE, Some(TimeSpec::new(0, 2_000_000)));
+    writeln!(out, "{{\"ev\":\"fwait\",\"sc\":\"timeout\",\"word\":5,\"exp\":5,\"timeout\":true,\"res\":{}}}", errno_of(&r)).unwrap();
+    // 4. k waiters parked, wake(n): returns min(n, k), exactly that many return
+    for (k, n) in [(1usize, 1i32), (2, 1), (3, 2), (2, i32::MAX)] {
+        let word = Arc::new(CoreAtomicU32::new(7));
+        let tids: Arc<Vec<AtomicI32>> = Arc::new((0..k).map(|_| AtomicI32::new(0)).collect());
+        let returned = Arc::new(CoreAtomicU32::new(0));
+        let mut hs = Vec::new();
+        for i in 0..k {
+            let (word, tids, returned) = (word.clone(), tids.clone(), returned.clone());
+            hs.push(std::thread::spawn(move || {
+                tids[i].store(unsafe { libc::syscall(libc::SYS_gettid) } as i32, Ordering::SeqCst);
+                let mut res;
+                loop {
+                    res = errno_of(&futex_wait(&word, 7, FutexFlags::PRIVATE, None));
+                    if res != -i64::from(EINTR) {
+                        break;
+                    }
+                }
+                returned.fetch_add(1, Ordering::SeqCst);
+                res
+            }));
+        }
+        let mut all = true;
+        for t in tids.iter() {
+            all &= wait_until_parked(t);
+        }
+        let r = futex_wake(&word, n).map_or(-1, |x| x as i64);
+        // the woken threads need time to come back (up to 3 s on a loaded machine), then a
+        // grace period during which nobody else may return
+        for _ in 0..3000 {
+            if i64::from(returned.load(Ordering::SeqCst)) >= r {
+                break;
+            }
+            std::thread::sleep(std::time::Duration::from_millis(1));
+        }
+        std::thread::sleep(std::time::Duration::from_millis(25));
+        let back = returned.load(Ordering::SeqCst);
+        writeln!(
+            out,
+            "{{\"ev\":\"fwake\",\"sc\":\"parked\",\"n\":{n},\"parked\":{k},\"all_parked\":{all},\"res\":{r},\"returned\":{back}}}"
+        )
+        .unwrap();
+        // let the rest go: change the word, wake everybody
+        word.store(8, Ordering::SeqCst);
+        let _ = futex_wake(&word, i32::MAX);
+        for h in hs {
+            let res = h.join().unwrap_or(-9999);
+            writeln!(out, "{{\"ev\":\"fwait\",\"sc\":\"woken\",\"word\":7,\"exp\":7,\"timeout\":false,\"res\":{res}}}").unwrap();
+        }
+    }
+    // 5. wake before sleep: the word has moved on, the late waiter must not sleep
+    let w = CoreAtomicU32::new(1);
+    w.store(2, Ordering::SeqCst);
+    let _ = futex_wake(&w, 1);
+    let r = futex_wait(&w, 1, FutexFlags::PRIVATE, None);
+    writeln!(out, "{{\"ev\":\"fwait\",\"sc\":\"late\",\"word\":2,\"exp\":1,\"timeout\":false,\"res\":{}}}", errno_of(&r)).unwrap();
+}
+
+/// Free-running stress of the real lock on the real futex: every critical section takes two
+/// tickets from a global counter while it is inside (after acquiring, before releasing) and
+/// reads (write sections: increments) the protected counter.
+fn mode_real(path: &str) {
+    let v: Value = serde_json::from_str(&std::fs::read_to_string(path).expect("spec")).expect("spec json");
+    let rw = v.get("kind").and_then(Value::as_str) == Some("rwlock");
+    let threads = v.get("threads").and_then(Value::as_u64).unwrap_or(4) as usize;
+    let sections = v.get("sections").and_then(Value::as_u64).unwrap_or(1000) as usize;
+    let read_pct = v.get("read_pct").and_then(Value::as_u64).unwrap_or(60);
+    let try_pct = v.get("try_pct").and_then(Value::as_u64).unwrap_or(10);
+    let seed = v.get("seed").and_then(Value::as_u64).unwrap_or_else(vharness::seed);
+    let stdout = std::io::stdout();
+    let mut out = std::io::BufWriter::with_capacity(1 << 20, stdout.lock());
+    if v.get("scenarios").and_then(Value::as_bool).unwrap_or(true) {
+        futex_scenarios(&mut out);
+    }
+    let lock = Arc::new(if rw { LockObj::R(RwLock::new(0)) } else { LockObj::M(Mutex::new(0)) });
+    let ticket = Arc::new(std::sync::atomic::AtomicU64::new(0));
+    let progress = Arc::new(std::sync::atomic::AtomicU64::new(0));
+    let finished = Arc::new(CoreAtomicU32::new(0));
+    let results: Arc<StdMutex<Vec<String>>> = Arc::new(StdMutex::new(Vec::new()));
+    let mut hs = Vec::new();
+    for t in 1..=threads {
+        let (lock, ticket, progress, finished, results) = (lock.clone(), ticket.clone(), progress.clone(), finished.clone(), results.clone());
+        hs.push(std::thread::spawn(move || {
+            let mut rng = Rng::new(seed.wrapping_mul(7919).wrapping_add(t as u64));
+            let mut mine = Vec::with_capacity(sections);
+            for _ in 0..sections {
+                let read = rw && rng.below(100) < read_pct;
+                let tr = rng.below(100) < try_pct;
+                let (e, x, val);
+                match &*lock {
+                    LockObj::M(m) => {
+                        let mut g = if tr {
+                            loop {
+                                if let Some(g) = m.try_lock() {
+                                    break g;
+                                }
+                                std::thread::yield_now();
+                            }
+                        } else {
+                            m.lock()
+                        };
+                        e = ticket.fetch_add(1, Ordering::SeqCst);
+                        val = *g;
+                        *g = val + 1;
+                        if rng.below(8) == 0 {
+                            std::thread::yield_now();
+                        }
+                        x = ticket.fetch_add(1, Ordering::SeqCst);
+                        drop(g);
+                    }
+                    LockObj::R(r) => {
+                        if read {
+                            let g = if tr {
+                                loop {
+                                    if let Some(g) = r.try_read() {
+                                        break g;
+                                    }
+                                    std::thread::yield_now();
+                                }
+                            } else {
+                                r.read()
+                            };
+                            e = ticket.fetch_add(1, Ordering::SeqCst);
+                            val = *g;
+                            if rng.below(4) == 0 {
+                                std::thread::yield_now();
+                            }
+                            x = ticket.fetch_add(1, Ordering::SeqCst);
+                            drop(g);
+                        } else {
+                            let mut g = if tr {
+                                loop {
+                                    if let Some(g) = r.try_write() {
+                                        break g;
+                                    }
+                                    std::thread::yield_now();
+                                }
+                            } else {
+                                r.write()
+                            };
+                            e = ticket.fetch_add(1, Ordering::SeqCst);
+                            val = *g;
+                            *g = val + 1;
+                            if rng.below(8) == 0 {
+                                std::thread::yield_now();
+                            }
+                            x = ticket.fetch_add(1, Ordering::SeqCst);
+                            drop(g);
+                        }
+                    }
+                }
+                progress.fetch_add(1, Ordering::Relaxed);
+                mine.push(format!(
+                    "{{\"ev\":\"sec\",\"t\":{t},\"k\":\"{}\",\"e\":{e},\"x\":{x},\"v\":{val}}}",
+                    if read { "r" } else { "w" }
+                ));
+            }
+            results.lock().unwrap().extend(mine);
+            finished.fetch_add(1, Ordering::SeqCst);
+        }));
+    }
+    // watchdog: no section completed for 20 s while threads are still inside = hang
+    let mut last = 0;
+    let mut idle = 0;
+    let mut hang = false;
+    while (finished.load(Ordering::SeqCst) as usize) < threads {
+        std::thread::sleep(std::time::Duration::from_millis(100));
+        let p = progress.load(Ordering::Relaxed);
+        if p == last {
+            idle += 1;
+            if idle > 200 {
+                hang = true;
+                break;
+            }
+        } else {
+            idle = 0;
+            last = p;
+        }
+    }
+    if hang {
+        let done = progress.load(Ordering::Relaxed);
+        for l in results.lock().unwrap().iter() {
+            writeln!(out, "{l}").unwrap();
+        }
+        writeln!(
+            out,
+            "{{\"ev\":\"stress_end\",\"hang\":true,\"threads\":{threads},\"sections\":{sections},\"completed\":{done},\"finished_threads\":{}}}",
+            finished.load(Ordering::SeqCst)
+        )
+        .unwrap();
+        out.flush().unwrap();
+        std::process::exit(0); // the stuck threads cannot be joined
+    }
+    for h in hs {
+        let _ = h.join();
+    }
+    for l in results.lock().unwrap().iter() {
+        writeln!(out, "{l}").unwrap();
+    }
+    let fin = match &*lock {
+        LockObj::M(m) => *m.lock(),
+        LockObj::R(r) => *r.read(),
+    };
+    writeln!(
+        out,
+        "{{\"ev\":\"stress_end\",\"hang\":false,\"threads\":{threads},\"sections\":{sections},\"completed\":{},\"final\":{fin}}}",
+        progress.load(Ordering::Relaxed)
+    )
+    .unwrap();
+    out.flush().unwrap();
+}
+
 fn main() {
     let args: Vec<String> = std::env::args().collect();
     if args.len() < 3 {
@@ -1290,6 +1550,7 @@ fn main() {
             verif::install(&HOOKS);
             mode_random(&args[2]);
         }
+        "real" => mode_real(&args[2]),
         _ => {
             eprintln!("unknown mode");
             std::process::exit(2);
